@@ -69,6 +69,11 @@ pub struct Case {
     pub malform: Malform,
     /// server speaks only after it has read the client's hello (send gate closed at first)
     pub server_waits_for_client: bool,
+    /// `<capabilities>` holds an element that is *not* a capability advertisement but carries
+    /// the :base:1.0 URI (the real list then does not): 0 = `<capability>` in a foreign namespace,
+    /// 1 = a base-namespace element with another name, 2 = a `<session-id>` with the URI as text
+    #[serde(default)]
+    pub foreign_cap: Option<u8>,
 }
 
 /// the hello as an abstract tree (tree-level malformations applied) and its capability URIs
@@ -97,6 +102,13 @@ pub fn hello_tree(case: &Case) -> (X, Vec<String>) {
     let mut caps = X::container(Ns::Base, "capabilities");
     for u in &uris {
         caps = caps.kid(X::leaf(Ns::Base, "capability", u));
+    }
+    if let Some(k) = case.foreign_cap {
+        caps = caps.kid(match k % 3 {
+            0 => X::leaf(Ns::Other("urn:example:vendor-extension".into()), "capability", BASE10),
+            1 => X::leaf(Ns::Base, "supported", BASE10),
+            _ => X::leaf(Ns::Base, "session-id", BASE10),
+        });
     }
     let sid_elems: Vec<X> = match &case.sid {
         Sid::Valid(n) => vec![X::leaf(Ns::Base, "session-id", &n.to_string())],
@@ -310,7 +322,9 @@ impl Prop for HelloMatrix {
                     malform,
                     server_waits_for_client,
                 )| Case {
-                    base10: b10,
+                    // one case in sixteen: the :base:1.0 URI only inside a non-capability element
+                    foreign_cap: (std >> 13 == 0 && schemes >> 5 < 4).then_some((schemes >> 5) % 3),
+                    base10: b10 && !(std >> 13 == 0 && schemes >> 5 < 4),
                     base11: b11,
                     caps: CapSet {
                         std: std & ((1 << STD_CAPS.len()) - 1),
